@@ -716,14 +716,14 @@ def _secs(cfg, fam):
     n = cfg["nsec"]
     out = []
     for i in range(n):
-        nx, ny = 2, [3, 4, 2][i]
+        nx, ny = 2, [3, 4, 2, 3, 2][i]
         m = G.make_mesh("swept", nx, 2 * ny - 1, "full", fam, asym=True, span=4.0)[:, :ny] + np.array([0.0, 8.0 * i, 0.0])
         out.append({"name": "s%d" % i, "mesh": m})
     return out
 
 
 def _cfg_ms(tier):
-    return [dict(nsec=n, shift=sh) for n in (1, 2, 3) for sh in (True, False)]
+    return [dict(nsec=n, shift=sh) for n in (1, 2, 3, 4, 5) for sh in (True, False)]  # middle sections beyond the second exist from 4 sections on
 
 
 Case("GeomMultiUnification", _cfg_ms, lambda s: GeomMultiUnification(sections=_secs(s["cfg"], s["fam"]), surface_name="w", shift_uni_mesh=s["cfg"]["shift"]), lambda s, kind: {}, tags=("nsec", "shift"), kinds=("gen0",))
